@@ -43,8 +43,8 @@ type AuthRoute struct {
 	SigH     string      `json:"sig_h,omitempty"`
 	TsH      string      `json:"ts_h,omitempty"`
 	NonceH   string      `json:"nonce_h,omitempty"`
-	TolS     int         `json:"tol_s,omitempty"` // 0: default 5m
-	Block    bool        `json:"block,omitempty"` // print hmac in block form
+	TolS     int         `json:"tol_s,omitempty"`   // 0: default 5m
+	Block    bool        `json:"block,omitempty"`   // print hmac in block form
 	Forward  string      `json:"forward,omitempty"` // behaviour of the auth service
 	CopyHdrs []string    `json:"copy_hdrs,omitempty"`
 	MaxBody  int         `json:"max_body,omitempty"`
@@ -52,7 +52,7 @@ type AuthRoute struct {
 
 type AuthReq struct {
 	Route   int      `json:"route"`
-	NowS    int      `json:"now_s"`    // clock = T0 + NowS seconds (+NowNs)
+	NowS    int      `json:"now_s"` // clock = T0 + NowS seconds (+NowNs)
 	NowNs   int      `json:"now_ns,omitempty"`
 	TsOffS  int      `json:"ts_off_s"` // signed timestamp = now + TsOffS
 	Secret  int      `json:"secret"`   // index into candidate secrets of the route (see candidates)
